@@ -190,6 +190,22 @@ def run_params(case, bus, ex):
         S = scale_of(u, ref)
         lanes_differ = not np.array_equal(ref[0], ref[1])
         bus.judge("param_batch", float(np.max(np.abs(got - ref))) / S if got.shape == ref.shape else np.inf, TOL, sig, sample=info, witness=info, nontrivial=lanes_differ)
+        # a batch that contains an EXACT zero of this parameter (boundary value: concrete-zero shortcuts must agree with the traced construction)
+        if pname != "dt":
+            valz = np.stack([np.zeros_like(np.asarray(base, float)), np.asarray(base, float), 2 * np.asarray(base, float)])
+            try:
+                refz = np.stack([np.asarray(make(jnp.asarray(valz[i]) if form != "scalar" else float(valz[i]))(u)) for i in range(B)])
+            except Exception:  # noqa: BLE001
+                continue                       # zero is not an admissible value for this parameter
+            if not np.all(np.isfinite(refz)):
+                continue
+            try:
+                gotz = np.asarray(eqx.filter_vmap(lambda s: s(u))(eqx.filter_vmap(make)(jnp.asarray(valz))))
+            except Exception as e:  # noqa: BLE001
+                bus.flag("param_batch", f"{type(e).__name__}: {str(e)[:120]}", sig + ("with zero",), witness=dict(info, exc=type(e).__name__, batch="contains an exact zero"))
+                continue
+            Sz = scale_of(u, refz)
+            bus.judge("param_batch", float(np.max(np.abs(gotz - refz))) / Sz if gotz.shape == refz.shape else np.inf, TOL, sig + ("with zero",), witness=dict(info, batch="contains an exact zero"))
 
 
 def run_wrapper(case, bus, ex):
@@ -233,6 +249,23 @@ def run_wrapper(case, bus, ex):
             ok = got.shape == ref.shape
             bus.judge("rollout_nesting", float(np.max(np.abs(got - ref))) / S if ok else np.inf, TOL * n, ("ForcedStepper", label), sample=dict(wrapper="ForcedStepper", program=label),
                       witness=dict(wrapper="ForcedStepper", program=label, shapes=[list(got.shape), list(ref.shape)]))
+        # the SAME rollout / repeat object reused eagerly with another forcing, then compiled: nothing of an earlier call may survive
+        ro1 = ex.rollout(w, n, takes_aux=True, constant_aux=True)
+        rp1 = ex.repeat(w, n, takes_aux=True, constant_aux=True)
+        for k in (0, 1, 2):
+            got_ro, got_rp = np.asarray(ro1(U[0], F[k])), np.asarray(rp1(U[0], F[k]))
+            v, trj = U[0], []
+            for _ in range(n):
+                v = w(v, F[k])
+                trj.append(np.asarray(v))
+            bus.judge("rollout_nesting", float(np.max(np.abs(got_ro - np.stack(trj)))) / S, TOL * n, ("ForcedStepper", "reused rollout object", k), witness=dict(wrapper="ForcedStepper", program="same rollout object, call %d" % k))
+            bus.judge("rollout_nesting", float(np.max(np.abs(got_rp - trj[-1]))) / S, TOL * n, ("ForcedStepper", "reused repeat object", k), witness=dict(wrapper="ForcedStepper", program="same repeat object, call %d" % k))
+        got_j = np.asarray(jax.jit(ro1)(U[0], F[1]))
+        v, trj = U[0], []
+        for _ in range(n):
+            v = w(v, F[1])
+            trj.append(np.asarray(v))
+        bus.judge("jit_equals_eager", float(np.max(np.abs(got_j - np.stack(trj)))) / S, TOL * n, ("ForcedStepper", "jit after eager reuse"), witness=dict(wrapper="ForcedStepper", program="jit(rollout object) after eager calls"))
         F2 = F.at[1].multiply(2.0)
         a2 = np.swapaxes(np.asarray(ex.rollout(jax.vmap(w), n, takes_aux=True, constant_aux=True)(U, F2)), 0, 1)
         same = np.array_equal(a[0], a2[0]) and np.array_equal(a[2], a2[2])
